@@ -325,6 +325,13 @@ def stepLine (st : DSt) (ws : List String) : DSt × List String :=
     match c.toNat?, sec.toNat? with
     | some _, some _ => (st, ["ok"])
     | _, _ => (st, ["bad-op"])
+  | ["settimeout", c, sec] =>
+    -- MHD_set_connection_option (TIMEOUT) at any time; the harness reports whether the connection was suspended
+    match c.toNat?, sec.toNat? with
+    | some ci, some sv =>
+      if !st.started || st.thr || !(st.d.active.contains ci || st.d.susp.contains ci) then (st, ["bad-op"])
+      else (st, [s!"settimeout c={ci} sec={sv} susp={if (st.d.conn ci).suspended then 1 else 0}"])
+    | _, _ => (st, ["bad-op"])
   | ["tick-if-susp", c, ms] =>
     -- the virtual clock advances only while the connection is suspended and nobody has resumed it yet
     match c.toNat?, ms.toNat? with
